@@ -432,8 +432,7 @@ def byte_of(base, idx):
     t = z3.Select(arr, S(toint(idx)))
     C = core.CTX
     if C is not None and getattr(C, "symbolic", False):
-        C.solver.add(z3.And(t >= 0, t < 256))
-        C.pc.append(z3.And(t >= 0, t < 256))
+        C.add(z3.And(t >= 0, t < 256))
     return SymInt(t, ub=256)
 
 
